@@ -3,7 +3,7 @@
 import json, os, shutil, re, sys
 conf = {}
 for l in open(sys.argv[1]):
-    m = re.match(r'(C\d\d) (m\d) ', l)
+    m = re.match(r'(C\d\d) (m\d+) ', l)
     if m:
         conf[(m.group(1), m.group(2))] = l.strip()
 det = json.load(open(sys.argv[2]))
